@@ -73,6 +73,9 @@ func (vm *varyMatcher) varyHeadersMatchOne(entry *ResponseRef, reqHeader http.He
 	if entry.Vary == "*" {
 		return false // Vary: "*" never matches
 	}
+	if _, star := entry.VaryResolved["*"]; star {
+		return false // neither does a list that has "*" as a member (RFC 9111 §4.1)
+	}
 	for field, value := range entry.VaryResolved {
 		reqValues := reqHeader[field]
 		// an empty value is comparable and means "no variation"
